@@ -51,9 +51,9 @@ def total (m : Method) (xs : List Fl) (y : Fl) : Fl :=
 /-- `mask = ~isnan(fcst) & ~isnan(obs)` -/
 def mask (x y : Fl) : Bool := x.notNan && y.notNan
 
-/-- `(obs - fcst).where(fcst < obs, 0).where(mask).mean(dim=member)` -/
+/-- `(obs - fcst).where(obs > fcst, 0).where(mask).mean(dim=member)` -/
 def under (xs : List Fl) (y : Fl) : Fl :=
-  nanmean (xs.map fun x => Fl.whereB (Fl.whereB (Fl.sub y x) (Fl.lt x y) (Fl.fin 0)) (mask x y))
+  nanmean (xs.map fun x => Fl.whereB (Fl.whereB (Fl.sub y x) (Fl.gt y x) (Fl.fin 0)) (mask x y))
 
 /-- `(fcst - obs).where(fcst > obs, 0).where(mask).mean(dim=member)` -/
 def over (xs : List Fl) (y : Fl) : Fl :=
